@@ -15,6 +15,11 @@ CHECKS = {
    note="Trusts reference arithmetic; coefficient alphabets (7-16 members) instead of all coefficients.",
    technique="bounded-exhaustive enumeration of operand tuples against a reference model",
    engine="fields", design_ref="§4 C08"),
+ "C01": dict(category="exploration",
+   text="Deviation-bounded product over (computation description x trace x proof options x field/extension/hash): a base configuration per (field, hasher) pair and every configuration that changes <= 1 (quick) / <= 2 (thorough) of 14 dimensions to any other member of that dimension's alphabet, plus the full product of a shape-critical sub-space (255 columns, 255 queries, remainder degree 255, 64+-value sequences, n/2+1 exemptions, Lagrange column, constant traces); each admissible case must prove, verify, survive to_bytes/from_bytes unchanged and verify again.",
+   note="Traces are valid by construction and re-checked by the reference validity predicate; inadmissible points are filtered by the stated predicate and counted; the prover's debug-only validation is not run (release-like profile with overflow checks).",
+   technique="bounded-exhaustive (deviation-bounded) enumeration of configurations on the real prover and verifier",
+   engine="stark", design_ref="§4 C01"),
  "C05": dict(category="exploration",
    text="Adversary enumeration on the stand-alone FRI verifier: configurations x functions (every monomial above the bound, low-degree polynomial corrupted at every point / pairs / half the domain, random) x prover strategies (honest, full remainder, remainder chosen after seeing the queries, tampered opened or committed value per layer, wrong challenge per layer, omitted/duplicated/swapped layers) x ALL position lists of size 1 and 2: the real verifier must return Ok exactly when a reference verifier written from the protocol description accepts. The harness prover model is bound to the code by byte-equality of its honest proof with the real FriProver's.",
    note="Decides the verifier's deterministic accept/reject procedure, not a soundness probability; trusts coin/hashers/Merkle (C19, C11, C10). The model follows the implementation's convention of keeping the domain offset constant across layers (an equivalent rescaling, degrees unchanged).",
@@ -110,6 +115,7 @@ def main():
             {"name": "fields", "path": "harness/bins/fields", "serves_properties": ["C07", "C08"], "kind_free_text": "alphabet products + representation reachability"},
             {"name": "polyfft", "path": "harness/bins/polyfft", "serves_properties": ["C09", "C20"], "kind_free_text": "monomial-basis FFT checks, segmented LDE, polynomial utilities"},
             {"name": "airdom", "path": "harness/bins/airdom", "serves_properties": ["C16", "C18"], "kind_free_text": "divisor/assertion domains; security-estimate parameter space"},
+            {"name": "stark", "path": "harness/bins/stark", "serves_properties": ["C01"], "kind_free_text": "SpecAir family, deviation-bounded configuration enumeration on the real prover/verifier"},
             {"name": "frichk", "path": "harness/bins/frichk", "serves_properties": ["C05", "C15"], "kind_free_text": "FRI prover model + reference verifier; folding identity"},
             {"name": "merkle", "path": "harness/bins/merkle", "serves_properties": ["C10"], "kind_free_text": "all subsets x all mutations of Merkle openings"},
             {"name": "hashes", "path": "harness/bins/hashes", "serves_properties": ["C11", "C19"], "kind_free_text": "reference sponge/coin; BFS over coin histories"},
